@@ -44,7 +44,8 @@ def gen_overload(rng, tag, kind, no_kwargs, lazy_ok):
     params = []
     ndefault_from = rng.choice((n, n, max(n - 1, 0), max(n - 2, 0)))
     for i in range(n):
-        t = rng.choice(['object', 'object', 'A', 'B', 'C', 'D', 'int', 'str'])
+        t = rng.choice(['object', 'object', 'A', 'B', 'C', 'D', 'int', 'str', 'tuple', 'Seq', 'Num', 'float',
+                        'anyof:str,int', 'anyof:A,tuple'] if rng.random() < 0.35 else ['object', 'object', 'A', 'B', 'C', 'D', 'int', 'str'])
         has_default = i >= ndefault_from
         nullable = rng.random() < 0.6
         default = None
@@ -135,6 +136,41 @@ def gen_kw_family(rng):
     return [layer], [False], call
 
 
+TYPE_PAIRS = [('tuple', 'Seq'), ('int', 'Num'), ('float', 'Num'), ('B', 'A'), ('C', 'object'), ('str', 'anyof:str,int'),
+              ('anyof:str,int', 'object'), ('anyof:A,tuple', 'Seq'), ('int', 'anyof:str,int'), ('tuple', 'anyof:A,tuple'),
+              ('anyof:str,int', 'anyof:A,tuple'), ('Seq', 'object'), ('Num', 'float')]
+
+
+def gen_type_family(rng):
+    """one- or two-layer families of one-/two-parameter overloads whose parameter types are related through
+    abstract base classes or aggregations, nullable or not, called with null (as a literal and from data) and
+    with values of each kind: the type filter, the null rule and the 'most specific' rule on their own"""
+    t1, t2 = rng.choice(TYPE_PAIRS)
+    if rng.random() < 0.5:
+        t1, t2 = t2, t1
+    n1, n2 = rng.random() < 0.5, rng.random() < 0.5
+    shape = rng.choice(('same-layer', 'same-layer', 'two-layers', 'single'))
+    second = rng.random() < 0.4
+    def mk(tag, t, nullable):
+        params = [fam.ParamSpec('x', t, nullable)]
+        if second:
+            params.append(fam.ParamSpec('y', rng.choice(['object', 'int']), True, None, True))
+        return fam.OverloadSpec(tag, params, kind='function')
+    o1, o2 = mk('T0', t1, n1), mk('T1', t2, n2)
+    if shape == 'same-layer':
+        layers, excl = [[o1, o2]], [False]
+    elif shape == 'two-layers':
+        layers, excl = [[o1], [o2]], [rng.random() < 0.2, False]
+    else:
+        layers, excl = [[o1]], [False]
+    arg = rng.choice(['const:null', 'const:null', 'n', 'n', 'const:int', 'const:str', 'i', 's', 't', 'f', 'a', 'b'])
+    if rng.random() < 0.3:
+        call = mr.CallSpec([], {'x': arg})
+    else:
+        call = mr.CallSpec([arg])
+    return layers, excl, call
+
+
 def gen_call(rng, layers):
     overloads = [o for layer in layers for o in layer]
     any_no_kwargs = any(o.no_kwargs for o in overloads)
@@ -153,7 +189,7 @@ def gen_call(rng, layers):
         elif r < 0.24 and not (method and i == 0):
             args.append(rng.choice(['const:int', 'const:str', 'const:null']))
         else:
-            args.append(rng.choice('aabbccdisn'))
+            args.append(rng.choice('aabbccdisntf'))
     if method and (args[0] == mr.SKIP or mr.is_const(args[0])):
         args[0] = rng.choice('abcd')
     kwargs = {}
@@ -163,7 +199,7 @@ def gen_call(rng, layers):
         kwnames = ['ko', 'zz'] if mr.SKIP in args else NAMES + ['ko', 'zz']
         for _ in range(rng.choice((0, 0, 0, 1, 1, 2, 2, 3))):
             name = rng.choice(kwnames)
-            kwargs[name] = rng.choice(list('abcdisn') + ['const:int', 'const:null'])
+            kwargs[name] = rng.choice(list('abcdisntf') + ['const:int', 'const:null'])
         bad = rng.random() < 0.04
     return mr.CallSpec(args, kwargs, method, bad)
 
@@ -395,6 +431,10 @@ def _is_value(g, key):
         return g == 7 and type(g) is int
     if key == 's':
         return g == 'txt'
+    if key == 't':
+        return list(g) == [1, 2] if isinstance(g, (list, tuple)) else False      # results are finalised: tuples come back as lists
+    if key == 'f':
+        return g == 2.5 and type(g) is float
     return type(g) is fam.VALUES[key][0]
 
 
@@ -414,6 +454,12 @@ def run_shard(spec, rec):
                 rec.count('families')
                 rec.count('families.keyword-specificity')
                 r.check(layers, exclusive, call, '%s/%d/kw' % (spec['name'], i))
+                continue
+            if i % 6 == 2:
+                layers, exclusive, call = gen_type_family(rng)
+                rec.count('families')
+                rec.count('families.type-filter')
+                r.check(layers, exclusive, call, '%s/%d/type' % (spec['name'], i))
                 continue
             layers, exclusive = gen_family(rng)
             if not any(layers):
